@@ -17,7 +17,7 @@ def main(path):
     out = 0
     for exact in (False, True):
         c = symx.run_concrete(h, v.get("params") or {}, inputs, v.get("model", "R"), exact=exact)
-        fails = [l for (l, o, d) in c.failed_conc]
+        fails = [l for (l, o, d) in c.failed_conc + c.failed_conc_only]
         print("replay (%s): failed obligations: %s" % ("fractions" if exact else "floats", fails))
         if v["label"] in fails:
             out = 1
